@@ -220,4 +220,29 @@ mod proofs {
     assert!(got == want, "nthChild: (An+B)-th named child of its parent, from the end when reverse");
     std::mem::forget(g);
   }
+
+  #[kani::proof]
+  #[kani::unwind(10)]
+  #[kani::stub(regex::Regex::new, crate::stub_regex_new)]
+  fn c05k_nth_child_position_n5() {
+    let t = any_tree(5, 1);
+    let x: usize = kani::any();
+    kani::assume(x < t.n);
+    let a: i32 = kani::any();
+    let b: i32 = kani::any();
+    kani::assume(a >= -2 && a <= 2 && b >= -2 && b <= 4);
+    let reverse: bool = kani::any();
+    let want = match spec_index(&t.data, t.n, &t.parent, x, reverse) {
+      Some(i) => spec_anb(a, b, i),
+      None => false,
+    };
+    let data = t.data.clone();
+    let g = mk_grep(SRC_X, data);
+    let got = real_matches(&g, x, a, b, reverse);
+    kani::cover!(want && reverse);
+    kani::cover!(want && !reverse && a != 0);
+    kani::cover!(!want && x > 0 && t.data.nodes[x].named);
+    assert!(got == want, "nthChild: (An+B)-th named child of its parent, from the end when reverse");
+    std::mem::forget(g);
+  }
 }
